@@ -988,11 +988,11 @@ pub fn run(ctx: &Ctx, phase: Phase, scenarios: usize) {
             } else if v.sig == "e2e-harness" {
                 notes.push(format!("scenario {k}: harness problem: {}", v.msg));
             } else {
-                ctx.extra("e2e", json!({"phase": format!("{phase:?}"), "scenarios_run": done, "skipped": skipped, "notes": notes}));
+                ctx.extra(&format!("e2e-{phase:?}"), json!({"phase": format!("{phase:?}"), "scenarios_run": done, "skipped": skipped, "notes": notes}));
                 ctx.report_violation("e2e", &v, case);
                 return;
             }
         }
     }
-    ctx.extra("e2e", json!({"engine": "real run_sender_with_config in real time against the cooperative receiver on loopback", "phase": format!("{phase:?}"), "scenarios_run": done, "skipped": skipped, "notes": notes}));
+    ctx.extra(&format!("e2e-{phase:?}"), json!({"engine": "real run_sender_with_config in real time against the cooperative receiver on loopback", "phase": format!("{phase:?}"), "scenarios_run": done, "skipped": skipped, "notes": notes}));
 }
